@@ -246,8 +246,8 @@ func seqExpand(raw json.RawMessage) (interface{}, error) {
 			}
 			lastClass = w.OpClass(op)
 			// one request takes a few thousand scheduling points (macro-operations: a few hundred thousand);
-			// a request that needs more than a million is a retry loop that never ends
-			vrt.SetHorizon(vrt.Steps() + 1_000_000)
+			// a request that needs more than 400000 is a retry loop that never ends
+			vrt.SetHorizon(vrt.Steps() + 400_000)
 			r, implFail, mis := w.Do(op)
 			vrt.SetHorizon(vrt.Steps() + 20_000_000)
 			// the state key is taken before the oracle runs (oracles may restart or probe the server)
